@@ -201,10 +201,10 @@ def main(argv=None):
     # anchor reach: the functions the property is anchored in must have been entered (sys.monitoring PY_START)
     if not a.replay:
         entered = set(extra.get("functions_entered", []))
-        missing = [f for f in getattr(mod, "ANCHORS", []) if f not in entered]
-        if missing:
-            problems.append("anchor functions never entered: %s" % ", ".join(missing))
-        extra["anchors_required"] = list(getattr(mod, "ANCHORS", []))
+        # informational only: internal names may legitimately change in a refactoring; what decides 'inconclusive' is
+        # whether the monitors driven through the public API were reached (REQUIRED)
+        extra["anchors_expected"] = list(getattr(mod, "ANCHORS", []))
+        extra["anchors_not_entered"] = [f for f in getattr(mod, "ANCHORS", []) if f not in entered]
 
     # classify violations
     findings = load_findings()
